@@ -269,6 +269,19 @@ func c05HostileMessage(r *core.Rand, tag int) (*gtfsrt.FeedMessage, []string) {
 			kinds = append(kinds, "present-but-empty-submessages")
 		}
 	}
+	if r.Chance(1, 3) {
+		// strings with unusual content in the fields that are set (also inside the NYCT / Mercury payloads): many more bytes
+		// than characters, long, invalid UTF-8, NUL and control characters
+		for _, e := range m.Entity {
+			if e.Alert != nil && r.Bool() && !proto.HasExtension(e.Alert, gtfsrt.E_MercuryAlert) {
+				proto.SetExtension(e.Alert, gtfsrt.E_MercuryAlert, &gtfsrt.MercuryAlert{CreatedAt: rgen.U64(1), UpdatedAt: rgen.U64(2), AlertType: rgen.S("x"),
+					HumanReadableActivePeriod: &gtfsrt.TranslatedString{Translation: []*gtfsrt.TranslatedString_Translation{{Text: rgen.S("Sundays"), Language: rgen.S("en")}}}})
+			}
+		}
+		if k := rgen.SetOddStrings(r, m, 1, 3); k > 0 {
+			kinds = append(kinds, "odd-strings")
+		}
+	}
 	n := r.Intn(6)
 	for k := 0; k < n && len(m.Entity) > 0; k++ {
 		e := core.Pick(r, m.Entity)
